@@ -207,6 +207,9 @@ pub struct XzBlock {
     pub flags_or: u8,
     pub filter_id: Option<u64>,
     pub filter_props: Option<Vec<u8>>,
+    /// declared size of the filter properties when it should differ from what follows (None = the real length)
+    #[serde(default)]
+    pub props_size_decl: Option<u64>,
     pub hsize_byte: Option<u8>,
     /// value of a header padding byte (None = 0)
     pub hpad_byte: Option<u8>,
@@ -236,6 +239,10 @@ pub struct XzFile {
     /// write a self-consistent index that lists only the first k blocks
     #[serde(default)]
     pub idx_keep: Option<usize>,
+    /// records wrong per block, totals right: 1 = first two swapped, 2 = four unpadded bytes moved from the
+    /// second to the first, 3 = one uncompressed byte moved
+    #[serde(default)]
+    pub idx_perm: u8,
     /// override (record index, which: 0 unpadded / 1 unpacked, value)
     pub idx_rec: Option<(usize, u8, u64)>,
     /// add (record index, which, delta) to the correct value
@@ -354,7 +361,7 @@ impl XzFile {
             }
             h.extend_from_slice(&varint(b.filter_id.unwrap_or(0x21)));
             let fp = b.filter_props.clone().unwrap_or_else(|| vec![22]);
-            h.extend_from_slice(&varint(fp.len() as u64));
+            h.extend_from_slice(&varint(b.props_size_decl.unwrap_or(fp.len() as u64)));
             h.extend_from_slice(&fp);
             // header = size byte + h + padding + crc32
             let minimal = (1 + h.len() + 4 + 3) / 4 * 4;
@@ -401,6 +408,20 @@ impl XzFile {
         let mut idx = vec![0u8];
         if let Some(k) = self.idx_keep {
             recs.truncate(k);
+        }
+        if recs.len() >= 2 {
+            match self.idx_perm {
+                1 => recs.swap(0, 1),
+                2 => {
+                    recs[0].0 += 4;
+                    recs[1].0 -= 4;
+                }
+                3 => {
+                    recs[0].1 += 1;
+                    recs[1].1 -= 1;
+                }
+                _ => {}
+            }
         }
         idx.extend_from_slice(&self.pad_varint(self.idx_count.unwrap_or(recs.len() as u64)));
         for (i, r) in recs.iter().enumerate() {
